@@ -687,6 +687,19 @@ func (g *Gen) run() {
 		// the structural half of the clause holds: no statement of the function deletes from these maps
 		g.addObl("grow-only", "no-delete", "true", fn.Pos(), "no key is ever deleted from the maps in field(s) "+gl+" (every delete statement of the function was inspected)", nil)
 	}
+	if md := g.con.Opts["max-deletes"]; md != "" {
+		ok := true
+		for _, ent := range strings.Split(md, ",") {
+			name, lim, _ := strings.Cut(strings.TrimSpace(ent), ":")
+			limit, _ := strconv.Atoi(lim)
+			if g.safeCtr["maxdel."+name] > limit {
+				ok = false
+			}
+		}
+		if ok {
+			g.addObl("max-deletes", "within-limit", "true", fn.Pos(), "every delete statement of the function was inspected: none beyond the stated number on the named local maps ("+md+")", nil)
+		}
+	}
 	if g.con.Opts["nonblocking"] != "" && g.safeCtr["neverblocks"] == 0 {
 		g.addObl("never-blocks", "none", "true", fn.Pos(), "no statement of the function can wait on a channel (every send, receive and select was inspected: all are cases of a select with default)", nil)
 	}
